@@ -158,6 +158,15 @@ def main():
             events.append({"k": "estimate", "meta": meta, "pattern": pname, "layer": l.name, "cls": l.__class__.__name__,
                            "size": int(sizes[l.name]), "obs": dy(float(np.max(np.abs(pre)))),
                            "range": list(ranges[l.name])})
+          # the sample-based front ends: "sampled" sizes from the observed outputs, "conservative" derives the
+          # ranges from the sample and runs the weight-based estimator
+          if pname in ("maxmax", "rand"):
+            for mode in ("sampled", "conservative"):
+              sz = estimate.analyze_accumulator_from_sample(model, xin.astype(np.float32), mode=mode)
+              for l, pre in zip(lays, outs[1:]):
+                events.append({"k": "estimate", "meta": meta, "pattern": pname + "/" + mode, "layer": l.name,
+                               "cls": l.__class__.__name__, "size": int(sz[l.name]), "obs": dy(float(np.max(np.abs(pre)))),
+                               "range": list(ranges[l.name])})
         except KeyError:
           pass
         except Exception as e:
